@@ -36,7 +36,7 @@ for _sid in sorted(os.listdir(os.path.join(ROOT, 'seeded'))):
 summary = ('%d changes in %d rounds (%s); %d of them were missed by the own check of the property when first tried and led to the strengthening noted in the last column '
            '(new element categories, configurations, operations, oracles or build variants - and to six genuine defects of amc found on the way, section 7b); '
            'every change is detected now.' % (sum(_rounds.values()), len(_rounds), ', '.join('round %s: %d' % (k, v) for k, v in sorted(_rounds.items())), _str))
-hdr = [summary, '', 'Independent sub-agents were given only the text of one property and a scratch worktree of /repo; each produced two (first round) or three (rounds b, c and d, which were also told which ideas had been tried) changes that break the property,',
+hdr = [summary, '', 'Independent sub-agents were given only the text of one property and a scratch worktree of /repo; each produced two (first round, and round e of 12 properties in the continuation session) or three (rounds b, c and d) changes (from round b on they were also told which ideas had been tried) that break the property,',
        'compile, and pass the 805 existing tests, with a demonstration program. Every change below was confirmed in a scratch worktree (demonstration passes on the',
        'unchanged headers, fails with the change; the existing suite passes with the change) by `tools/confirm_seed.py` and is kept under `seeded/<id>/`.',
        '"first run" = which quick checks reported a violation when the change was first tried; "final" = after the strengthening described in the last column',
